@@ -573,5 +573,21 @@ def run(db, rep, tier):
     r5(db, rep)
     r6(db, rep)
     r7(db, rep)
+    # R8 = C12-R1: every float read from a buffer becomes a JsValue through bits::tag_f64; the compile-time witness over
+    # `mod bits` decides that every NaN bit pattern (the raw bytes a Float64Array / DataView can deliver) reads back as
+    # the number NaN and as nothing else
+    import c12
+
+    class _As:
+        """presents the shared rule under this property's own rule number"""
+        def __init__(self, rep, name):
+            self._rep, self._name = rep, name
+
+        def __getattr__(self, k):
+            v = getattr(self._rep, k)
+            if k in ("rule", "ob", "violation", "floor", "anchor"):
+                return lambda rule, *a, **kw: v(self._name, *a, **kw)
+            return v
+    c12.r1(_As(rep, "R8"))
     rep.assumptions += ["subslice()/subslice_mut() panic on an out-of-range start (slice indexing), they never produce a "
                         "dangling reference"]
